@@ -23,3 +23,9 @@ CHECKS["C05"] = (_EXPL, "runtime monitoring of the real enumerator's complete ou
 CHECKS["C16"] = (_EXPL, "runtime monitoring of real hash() on constructed certainly-unequal pairs (three families)",
     "Pairs that differ in the (element, neighbour elements) multiset, the two stereoisomers of a graph with one differing stereogenic unit inside random surroundings, and reaction graphs whose reactant/product/TS multisets differ (incl. reverse) must hash differently; generate_stereoisomers counts are recorded as an end-to-end diagnostic.",
     "Trusted: the constructions guarantee inequality; a 64-bit accidental collision (~5e-20 per pair) is reported as a violation as the property instructs.", "DESIGN.md 2/C16")
+CHECKS["C15"] = (_EXPL, "runtime monitoring of the real serialiser/deserialiser pair with a snapshot-equality oracle (round-trip, view by view)",
+    "Generated graphs of all four classes (arbitrary ids up to +-1e15, all descriptor classes and parities incl. unspecified and placeholders, all 7 change-slot subsets, formed/broken/fleeting bonds, isolated atoms, empty graph) are serialised and deserialised by the real JSONHandler; the result's public views must equal the original's (same class, atoms, elements, bonds, roles, descriptors with identical parity value, changes), then == and hash.",
+    "Trusted: snapshot reader (public views only); attributes other than element / reaction role are outside the statement.", "DESIGN.md 2/C15")
+CHECKS["C20"] = (_EXPL, "runtime monitoring with icontract postconditions on BondsFromDistance.array / pairwise_distances plus direct recomputation oracle and rigid-motion/permutation metamorphic relation",
+    "XYZ write->read on generated geometries (1..200 atoms, all 118 elements, magnitudes 1e-12..1e6, -0.0, 8th-decimal rounding, ten comment classes) must reproduce elements and coordinates to 0.5e-8; distance connectivity is checked entry by entry against [d < 1.2(r_i+r_j)] recomputed by the harness, for symmetry/zero diagonal (icontract), and for invariance under random rigid motions and permutations.",
+    "Trusted: harness distance arithmetic (math.dist); pairs within 1e-9 (1e-6 after motion) relative of the cut-off are not judged; comments are single lines.", "DESIGN.md 2/C20")
